@@ -28,6 +28,22 @@ variable {α : Type} {F : Text → List α} {ok : Text → Prop}
 
 theorem Piecewise.nil (P : Piecewise F ok) : F [] = [] := P.blank [] (by decide)
 
+/-- keeping only the findings that satisfy `p` reads piece by piece as well -/
+theorem Piecewise.filter (P : Piecewise F ok) (p : α → Bool) : Piecewise (fun t => (F t).filter p) ok where
+  split u Z hu x := by
+    simp only [List.mem_filter, P.split u Z hu x]
+    constructor
+    · rintro ⟨h | h, hp⟩
+      · exact .inl ⟨h, hp⟩
+      · exact .inr ⟨h, hp⟩
+    · rintro (⟨h, hp⟩ | ⟨h, hp⟩)
+      · exact ⟨.inl h, hp⟩
+      · exact ⟨.inr h, hp⟩
+  blank w hw := by simp only [P.blank w hw, List.filter_nil]
+  okBlank := P.okBlank
+  okStrip := P.okStrip
+  okSuffix := P.okSuffix
+
 theorem Piecewise.glue (P : Piecewise F ok) {X : Text} (hX : OkEnded ok X) (Y : Text) (x : α) :
     x ∈ F (X ++ Y) ↔ x ∈ F X ∨ x ∈ F Y := by
   rcases hX with rfl | ⟨u, rfl, hu⟩
